@@ -36,7 +36,7 @@ BUDGET_S = {"quick": 70, "thorough": 800}
 
 def plan(tier):
     if tier == "quick":
-        return [{"n": 120, "i": i, "strict": i % 2 == 0} for i in range(16)]
+        return [{"n": 220, "i": i, "strict": i % 2 == 0} for i in range(16)]
     return [{"n": 6000, "i": i, "strict": i % 2 == 0} for i in range(16)]
 
 
